@@ -368,7 +368,7 @@ def run(prop, tier, seed, replay=None):
     def fine_thread():
         for c in fine_cfgs:
             r = tlc.run('Lifecycle', 'mc.cfg', timeout=400 if quick else 2400, workers=3,
-                        extra_files={'mc.cfg': cfg_text(c, True, INVS, 'Terminates DeathNoticed' if len(c['streams']) == 1 else '')})
+                        extra_files={'mc.cfg': cfg_text(c, True, INVS, 'Terminates DeathNoticed' if len(c['streams']) == 1 or c.get('late') else '')})
             fine_out.append((c, r))
 
     def unpruned_thread():
@@ -428,6 +428,17 @@ def run(prop, tier, seed, replay=None):
             # seeded sample, stratified so that every kind of pending call / callback / peer action is represented
             chosen, rest = [], list(paths)
             rng.shuffle(rest)
+
+            def close_inside_drain(p):      # Close() while the drain is parked, i.e. a stream registered after Close()
+                acts = [edges[e][2].split('(')[0] for e in p]
+                if 'DrainBegin' not in acts or 'NsRelease' not in acts:
+                    return False
+                a, b = acts.index('DrainBegin'), acts.index('NsRelease')
+                return 'CloseCall' in acts[a:b]
+            have = [p for p in rest if close_inside_drain(p)][:max(12, limit // 8)]
+            for p in have:
+                rest.remove(p)
+            chosen += have
             for act in ('ParkFlush', 'ParkAccept', 'CbRelease', 'PeerCloseStream', 'TryOpen', 'ParkRead', 'StreamClose'):
                 have = [p for p in rest if any(edges[e][2].startswith(act) for e in p)][:max(6, limit // 10)]
                 for p in have:
@@ -577,7 +588,7 @@ def run(prop, tier, seed, replay=None):
             ck.add('states', r.distinct)
             ck.add('transitions', r.generated)
             ck.cov['tlc_configs'].append('Lifecycle %s, finding classes pruned, invariants%s: %d states, %d generated, depth %d, %.0fs'
-                                         % (describe(c), ' + leads-to' if len(c['streams']) == 1 else '', r.distinct, r.generated, r.depth, r.wall))
+                                         % (describe(c), ' + leads-to' if len(c['streams']) == 1 or c.get('late') else '', r.distinct, r.generated, r.depth, r.wall))
 
     ck.cov['replayed_behaviours'] = counts['behaviours']
     ck.cov['replay_steps'] = counts['steps']
